@@ -343,4 +343,134 @@ def Agrees {α : Type} (o : Outcome α) (r : Option α) : Prop :=
 /-- the outcome is a value or a LoadError (no other exception, enough fuel) -/
 def Settled {α : Type} (o : Outcome α) : Prop := (∃ a, o = .ok a) ∨ (∃ e, o = .err e)
 
+/-! ### the documented dump rules -/
+
+/-- the `None` type -/
+def isNoneCase : Ty → Bool
+  | .scalar "none" => true
+  | _ => false
+
+/-- `Optional[T]` (exactly two cases, one of them `None`): the other case -/
+def optionalOther : List Ty → Option Ty
+  | [a, b] => if isNoneCase a then some b else if isNoneCase b then some a else none
+  | _ => none
+
+/-- the values of the union's `Literal` case, if it has one -/
+def unionLiteral : List Ty → Option (List Val)
+  | [] => none
+  | .literal vs :: _ => some vs
+  | _ :: rest => unionLiteral rest
+
+/-- the dumper registered for class `k`: the case whose origin class is `k`
+    (the last one, should several cases share the origin: `List[int] | List[str]`) -/
+def classDumper (keys : List String) (cases : List Ty) (k : String) : Option Ty :=
+  ((keys.zip cases).reverse.find? fun p => p.1 == k).map (·.2)
+
+/-- **Union dumper, choice of the case.** "Dumper finds appropriate dumper using object type.
+    For objects of types that are not listed in the union, but which are a subclass of some
+    union case, the base class dumper is used. If there are several parents, it will be the
+    selected class that appears first in `.mro()` list": the first class of the value's MRO
+    that is the origin of a case; otherwise (virtual subclasses of abstract cases, repaired
+    code) the first case, in union order, whose origin the value's class is a subclass of. -/
+def specDispatch (DW : DumpWorld) (keys : List String) (cases : List Ty) (x : Val) : Option Ty :=
+  match (DW.mro x).findSome? (classDumper keys cases) with
+  | some t => some t
+  | none =>
+    match (keys.zip cases).find? fun p => (DW.supers x).contains p.1 with
+    | some p => classDumper keys cases p.1
+    | none => none
+
+/-- the elements of a datum that has a length (`len(data)`: not a generator) -/
+def sizedElems : Val → Option (List Val)
+  | .iter _ => none
+  | x => x.iterElems
+
+/-- apply the i-th partial function to the i-th element, all results present -/
+def zipOpt {α β γ : Type} (f : α → β → Option γ) (as : List α) (bs : List β) : Option (List γ) :=
+  allSome (zipWithOpt f as bs)
+
+/-- The value the documented rule prescribes as the dump of `x`, `none` when the dumper
+    fails (with whatever exception). -/
+def specDump (W : World) (DW : DumpWorld) : Nat → Ty → Val → Option Val
+  | 0, _, _ => none
+  | n + 1, ty, x =>
+    match ty with
+    | .scalar s => okVal (W.scalarDump s x)
+    | .any => some x
+    | .literal _ => some x
+    | .union cs ks =>
+      match optionalOther cs with
+      | some other => if x.isNone then some .none else specDump W DW n other x
+      | none =>
+        if (match unionLiteral cs with
+            | some vs => vs.any fun v => Val.pyEq x v
+            | none => false) then some x
+        else
+          match specDispatch DW ks cs x with
+          | some t => specDump W DW n t x
+          | none => none
+    | .iter _ dl e =>
+      match x.iterElems with
+      | none => none
+      | some xs => (mapOpt (specDump W DW n e) xs).map fun ys => if dl then .list ys else .tuple ys
+    | .tuple ts =>
+      match sizedElems x with
+      | none => none
+      | some xs =>
+        if xs.length = ts.length then
+          (zipOpt (fun t y => specDump W DW n t y) ts xs).map Val.tuple
+        else none
+    | .dict k v =>
+      match x with
+      | .dict kvs =>
+        match mapOpt (pairOpt (specDump W DW n k) (specDump W DW n v)) kvs with
+        | none => none
+        | some pairs =>
+          if pairs.all (fun p => p.1.hashable) then some (.dict (insertAll pairs)) else none
+      | _ => none
+    | .model _ => none
+
+/-- `DumpsTo W DW T x y`: the documented rule of `T` prescribes `y` as the dump of `x`. -/
+inductive DumpsTo (W : World) (DW : DumpWorld) : Ty → Val → Val → Prop
+  /-- scalar types: the (translated) leaf dumper (Decimal → str, bytes → base64 str, …) -/
+  | scalar {s : String} {x y : Val} : W.scalarDump s x = .ok y → DumpsTo W DW (.scalar s) x y
+  /-- "Value is passed as is" -/
+  | any {x : Val} : DumpsTo W DW .any x x
+  /-- "Dumper will return value without any processing" (None / bool / int / str members) -/
+  | literal {vals : List Val} {x : Val} : DumpsTo W DW (.literal vals) x x
+  /-- "Dumper produces the tuple (or list for list children) with dumped elements" -/
+  | iter {f : Factory} {dl : Bool} {e : Ty} {x : Val} {xs ys : List Val} :
+      x.iterElems = some xs → xs.length = ys.length →
+      (∀ p, p ∈ xs.zip ys → DumpsTo W DW e p.1 p.2) →
+      DumpsTo W DW (.iter f dl e) x (if dl then .list ys else .tuple ys)
+  /-- constant-length tuple: a sized datum of exactly that many elements, dumped to a tuple -/
+  | tuple {ts : List Ty} {x : Val} {xs ys : List Val} :
+      sizedElems x = some xs → xs.length = ts.length → xs.length = ys.length →
+      (∀ q, q ∈ ts.zip (xs.zip ys) → DumpsTo W DW q.1 q.2.1 q.2.2) →
+      DumpsTo W DW (.tuple ts) x (.tuple ys)
+  /-- "Dumper also constructs dict with converted keys and values" -/
+  | dict {K V : Ty} {kvs out : List (Val × Val)} :
+      kvs.length = out.length →
+      (∀ q, q ∈ kvs.zip out → DumpsTo W DW K q.1.1 q.2.1) →
+      (∀ q, q ∈ kvs.zip out → DumpsTo W DW V q.1.2 q.2.2) →
+      (∀ p, p ∈ out → p.1.hashable = true) →
+      DumpsTo W DW (.dict K V) (.dict kvs) (.dict (insertAll out))
+  /-- `Optional[T]`: `None` is dumped as `None` … -/
+  | optionalNone {cs : List Ty} {ks : List String} {other : Ty} :
+      optionalOther cs = some other → DumpsTo W DW (.union cs ks) .none .none
+  /-- … and anything else by the dumper of `T` (the class of the value is NOT looked at) -/
+  | optionalSome {cs : List Ty} {ks : List String} {other : Ty} {x y : Val} :
+      optionalOther cs = some other → x.isNone = false → DumpsTo W DW other x y →
+      DumpsTo W DW (.union cs ks) x y
+  /-- a value `==` to a member of the union's `Literal` case is returned as is -/
+  | unionLiteral {cs : List Ty} {ks : List String} {vs : List Val} {v x : Val} :
+      optionalOther cs = none → unionLiteral cs = some vs → v ∈ vs → Val.pyEq x v = true →
+      DumpsTo W DW (.union cs ks) x x
+  /-- otherwise the case is chosen by the class of the value -/
+  | unionClass {cs : List Ty} {ks : List String} {t : Ty} {x y : Val} :
+      optionalOther cs = none →
+      (∀ vs, unionLiteral cs = some vs → ∀ v ∈ vs, Val.pyEq x v = false) →
+      specDispatch DW ks cs x = some t → DumpsTo W DW t x y →
+      DumpsTo W DW (.union cs ks) x y
+
 end Adaptix.Morph.C02
